@@ -2,6 +2,7 @@ package props
 
 import (
 	"fmt"
+	"os"
 	"path/filepath"
 	"sort"
 	"strings"
@@ -33,6 +34,14 @@ type raftNet struct {
 	ordinal                      int
 	healed                       bool
 	dropped, duplicated, delayed int
+	isolated                     map[uint64]bool // replicas cut off from the others (nothing in, nothing out)
+	partitions                   int
+}
+
+func (n *raftNet) cut(a, b uint64) bool {
+	n.mu.Lock()
+	defer n.mu.Unlock()
+	return !n.healed && (n.isolated[a] || n.isolated[b])
 }
 
 type raftReplica struct {
@@ -108,6 +117,9 @@ func isTxBroadcast(m *pb.Message) bool {
 
 func (p *raftPeerMgr) AsyncSend(to orderPeerMgr.KeyType, m *pb.Message) error {
 	id := to.(uint64)
+	if p.net.cut(p.self, id) {
+		return nil // partitioned
+	}
 	act := p.action()
 	if act == 3 && isTxBroadcast(m) && sim.KFOpen("KF-C20-late-tx-broadcast") {
 		// known finding: a transaction broadcast that arrives after its block was committed is admitted by a
@@ -133,6 +145,9 @@ func (p *raftPeerMgr) AsyncSend(to orderPeerMgr.KeyType, m *pb.Message) error {
 
 func (p *raftPeerMgr) Send(to orderPeerMgr.KeyType, m *pb.Message) (*pb.Message, error) {
 	id := to.(uint64)
+	if p.net.cut(p.self, id) {
+		return nil, fmt.Errorf("peer %d unreachable (partition)", id)
+	}
 	p.net.mu.Lock()
 	r, ok := p.net.nodes[id]
 	alive := ok && r.alive
@@ -291,17 +306,28 @@ func c20RaftProperty(t *rapid.T) {
 	size := rapid.SampledFrom([]int{1, 3, 3, 3}).Draw(t, "clusterSize")
 	base := sim.NewDir("c20raft")
 	defer removeAll(base)
-	net := &raftNet{nodes: map[uint64]*raftReplica{}}
+	net := &raftNet{nodes: map[uint64]*raftReplica{}, isolated: map[uint64]bool{}}
 	snap := rapid.SampledFrom([]int{3, 5, 20}).Draw(t, "snapshotCount")
-	if sim.KFOpen("KF-C20-snapshot-ahead-of-executor") {
+	// one case in three has no crashes: only message faults (a partitioned follower falls behind, the leader compacts
+	// its log and ships a snapshot, the follower installs it while its executor may still hold delivered blocks)
+	noCrash := rapid.IntRange(0, 1).Draw(t, "noCrash") == 0
+	forceLC := os.Getenv("C20_LEADER_CRASH") != "" // experiments only: every case is a leader-crash case
+	if forceLC {
+		noCrash, size = false, 3
+	}
+	if sim.KFOpen("KF-C20-snapshot-ahead-of-executor") && !noCrash {
 		// known finding: a local raft snapshot can cover blocks the executor has not executed yet; after a crash
-		// they are never delivered again. Excluded by construction with the shipped snapshot_count, counted.
+		// they are never delivered again. It needs a crash, so cases with crashes run with the shipped
+		// snapshot_count (excluded by construction, counted); cases without crashes keep the small counts.
 		sim.StatsFor("C20").KnownFinding("KF-C20-snapshot-ahead-of-executor", fmt.Sprintf("snapshot_count %d replaced by 1000", snap))
 		snap = 1000
 	}
 	batchSize := rapid.IntRange(1, 3).Draw(t, "batchSize")
 	if size == 3 {
 		net.script = rapid.SliceOfN(rapid.SampledFrom([]byte{0, 0, 0, 0, 0, 0, 1, 2, 3}), 0, 60).Draw(t, "faultScript")
+	}
+	if os.Getenv("C20_LEADER_CRASH") == "delay" {
+		net.script = []byte{3}
 	}
 	vp := map[uint64]*pb.VpInfo{}
 	for i := 1; i <= size; i++ {
@@ -314,6 +340,10 @@ func c20RaftProperty(t *rapid.T) {
 		writeOrderToml(dir, batchSize, "0.03s", false, "2s", snap, "0.02s")
 		r := &raftReplica{id: uint64(i), dir: dir, stub: newExecStub(fmt.Sprintf("replica%d", i), 1), net: net}
 		r.lag = time.Duration(rapid.SampledFrom([]int{0, 0, 15, 40}).Draw(t, fmt.Sprintf("lag%d", i))) * time.Millisecond
+		if noCrash && size == 3 {
+			// slow executors: blocks delivered from a replica's own log are still queued when a snapshot arrives
+			r.lag = time.Duration(rapid.SampledFrom([]int{15, 40, 80}).Draw(t, fmt.Sprintf("slowLag%d", i))) * time.Millisecond
+		}
 		net.nodes[r.id] = r
 		reps = append(reps, r)
 	}
@@ -339,7 +369,7 @@ func c20RaftProperty(t *rapid.T) {
 	}
 	keys := []*sim.Key{sim.KeyFor("ord-a"), sim.KeyFor("ord-b")}
 	next := map[int]uint64{}
-	restarts := 0
+	restarts, leaderCrashes := 0, 0
 	tsSeq := int64(0)
 	tsMode := rapid.IntRange(0, 2).Draw(t, "tsMode") // 0 increasing with the nonce, 1 decreasing, 2 arbitrary
 	skippedAfterRestart := 0
@@ -352,7 +382,33 @@ func c20RaftProperty(t *rapid.T) {
 			inconclusive = "no leader within 15s"
 			break
 		}
+		if noCrash && size == 3 {
+			// partition episodes: a follower is cut off while the others go on ordering (more blocks than the snapshot
+			// count, so that the leader compacts its log), then it is connected again and has to catch up from a snapshot
+			net.mu.Lock()
+			for id := range net.isolated {
+				delete(net.isolated, id)
+			}
+			net.mu.Unlock()
+			if rapid.IntRange(0, 2).Draw(t, "partition") != 0 {
+				var followers []uint64
+				for _, r := range reps {
+					if r.id != entry.id {
+						followers = append(followers, r.id)
+					}
+				}
+				fid := followers[rapid.IntRange(0, len(followers)-1).Draw(t, "isolated")]
+				net.mu.Lock()
+				net.isolated[fid] = true
+				net.partitions++
+				net.mu.Unlock()
+				ops = append(ops, fmt.Sprintf("round %d: replica %d is partitioned from the others", rd, fid))
+			}
+		}
 		cnt := rapid.IntRange(1, 5).Draw(t, "txs")
+		if noCrash && size == 3 && len(net.isolated) > 0 {
+			cnt = rapid.IntRange(4, 8).Draw(t, "txsDuringPartition")
+		}
 		for i := 0; i < cnt; i++ {
 			a := rapid.IntRange(0, 1).Draw(t, "acct")
 			// the transaction's own timestamp orders the pool's ready index; clients' clocks need not agree with nonces
@@ -379,9 +435,20 @@ func c20RaftProperty(t *rapid.T) {
 			}
 		}
 		ops = append(ops, fmt.Sprintf("round %d: %d transactions via replica %d (next nonces %v) @%dms", rd, cnt, entry.id, next, time.Since(processStart).Milliseconds()))
-		time.Sleep(time.Duration(rapid.IntRange(60, 250).Draw(t, "waitMs")) * time.Millisecond)
-		if rapid.IntRange(0, 2).Draw(t, "crash") == 0 {
+		// leader-crash episode: the replica that accepted (and proposed) the transactions goes down shortly afterwards,
+		// while its entries may be appended on the others but not committed yet
+		leaderCrash := !noCrash && size == 3 && (rapid.IntRange(0, 3).Draw(t, "leaderCrash") == 0 || forceLC)
+		if leaderCrash {
+			time.Sleep(time.Duration(rapid.IntRange(5, 120).Draw(t, "shortWaitMs")) * time.Millisecond)
+		} else {
+			time.Sleep(time.Duration(rapid.IntRange(60, 250).Draw(t, "waitMs")) * time.Millisecond)
+		}
+		if leaderCrash || (!noCrash && rapid.IntRange(0, 2).Draw(t, "crash") == 0) {
 			victim := reps[rapid.IntRange(0, size-1).Draw(t, "victim")]
+			if leaderCrash {
+				victim = entry
+				leaderCrashes++
+			}
 			ops = append(ops, fmt.Sprintf("crash replica %d at executed height %d, restart with applied=%d @%dms", victim.id, victim.stub.chainMeta().Height, victim.stub.chainMeta().Height, time.Since(processStart).Milliseconds()))
 			victim.crash()
 			if victim.mustReach > victim.stub.chainMeta().Height {
@@ -470,6 +537,15 @@ func c20RaftProperty(t *rapid.T) {
 	}
 	if crashWithQueued > 0 {
 		cls = append(cls, "raft-crash-with-delivered-unexecuted-blocks")
+	}
+	if noCrash && snap < 1000 {
+		cls = append(cls, fmt.Sprintf("raft-no-crash-snapshot-count-%d", snap))
+	}
+	if net.partitions > 0 {
+		cls = append(cls, "raft-follower-partitioned")
+	}
+	if leaderCrashes > 0 {
+		cls = append(cls, "raft-accepting-leader-crashed")
 	}
 	_ = skippedAfterRestart
 	st.Case(nt, cls...)
